@@ -998,6 +998,8 @@ def live_part(ctx, nprogs, only=None):
     rng = ctx.rng
     sess = Session(ctx.repo)
     cls, orig_open = install_shrink()
+    old_hook = threading.excepthook
+    threading.excepthook = lambda args: None      # prefetch threads of closed sessions die noisily
     try:
         progs = [[("w", 60), ("stat",), ("w", 120)],
                  [("getfo_shrunk", 70000), ("w", 3), ("prefetch_stale", 3, True), ("w", 3), ("readv_past", 5000),
@@ -1054,6 +1056,7 @@ def live_part(ctx, nprogs, only=None):
                 sess.close()
                 sess = Session(ctx.repo)
     finally:
+        threading.excepthook = old_hook
         cls.open = orig_open
         SHRINK.clear()
         sess.close()
@@ -1072,7 +1075,7 @@ def cross_check_constants(ctx):
 
 
 def run(ctx):
-    scale = 8 if ctx.thorough else 1
+    scale = 4 if ctx.thorough else 1
     ctx.rule = ("seeded generator (random.Random('C30-<seed>')): server request streams of 4..15 requests over all "
                 "packet types (named, unnamed, unhandled), ids incl. 0 and 2^32-1, valid / stale / wrong-table / "
                 "malformed handles, every extended request, undecodable text, truncated and junk payloads, callback "
